@@ -196,7 +196,8 @@ impl HllSketch {
                 let should_promote = RESIZE_DENOMINATOR as usize * set.container().len()
                     > RESIZE_NUMERATOR as usize * set.container().capacity();
                 if should_promote {
-                    self.mode = if set.container().lg_size() == self.lg_config_k as usize - 3 {
+                    // (>=: a decoded table may already be larger than any this sketch grows itself)
+                    self.mode = if set.container().lg_size() >= self.lg_config_k as usize - 3 {
                         promote_container_to_array(set.container(), *hll_type, self.lg_config_k)
                     } else {
                         grow_set(set, *hll_type)
